@@ -10,7 +10,9 @@ from harness.memstream import MemStream
 META = {
     "level": "proof",
     "level_text": "props/C19.v: the tables regenerated from brine.py/channel.py/consts.py/protocol.py equal the hand-written published tables (tags, immediates, "
-                  "ladders, struct formats, frame parameters and comparison, message/label/handler numbers, handler table, message tuple layout); each ladder provably "
+                  "ladders, struct formats, frame parameters and comparison, message/label/handler numbers, handler table, message tuple layout); for every value the "
+                  "encoder emits exactly the published encoding written out directly from the format description (c19_emits_the_published_encoding: model/PubCodec.v "
+                  "shares no table with the encoder); each ladder provably "
                   "picks a shortest admissible header and immediates are used whenever available; every admissible alternative form (one-byte or four-byte counts) "
                   "is accepted by the decoder with the same meaning; any stream of conforming frames (any flag byte, compressed at any size) read through any benign "
                   "fragmentation is delivered payload by payload (c19_accepts_any_conforming_frames); values cross the whole stack encode-frame-fragment-unframe-decode "
